@@ -13,9 +13,29 @@ def BucketIs (fs : FS) (bucket : Path) (b : Bytes) : Prop :=
 
 variable (cfg : Cfg) (env : Env) (cache : Path)
 
-/-- The bucket is the old bytes plus a prefix of the frame of the record under construction. -/
+/-- The bucket is the old bytes plus a prefix of the frame of the record under construction —
+a record whose time is the caller's (if one was given) and is a `u128` whenever the caller's is
+(the clock's always is): what is needed for the record to be well-formed (`mkRec_wf`). -/
 def Growing (key : Bytes) (o : WriteOpts) (b0 : Bytes) (fs : FS) : Prop :=
-  ∃ tm k, BucketIs fs (bucketPath cfg cache key) (b0 ++ ((codec cfg).frame (mkRec key o tm)).take k)
+  ∃ tm k, BucketIs fs (bucketPath cfg cache key) (b0 ++ ((codec cfg).frame (mkRec key o tm)).take k) ∧
+    (∀ t, o.time = some t → tm = t) ∧ ((∀ t, o.time = some t → t ≤ timeMax) → tm ≤ timeMax)
+
+/-- Forgetting what is known about the time. -/
+theorem Growing.bucket {key : Bytes} {o : WriteOpts} {b0 : Bytes} {fs : FS}
+    (h : Growing cfg cache key o b0 fs) :
+    ∃ tm k, BucketIs fs (bucketPath cfg cache key) (b0 ++ ((codec cfg).frame (mkRec key o tm)).take k) := by
+  obtain ⟨tm, k, hb, _⟩ := h
+  exact ⟨tm, k, hb⟩
+
+/-- Nothing appended yet. -/
+theorem growing_zero {key : Bytes} {o : WriteOpts} {b0 : Bytes} {fs : FS}
+    (h : BucketIs fs (bucketPath cfg cache key) b0) : Growing cfg cache key o b0 fs := by
+  refine ⟨o.time.getD 0, 0, by simpa using h, ?_, ?_⟩
+  · intro t ht; simp [ht]
+  · intro hle
+    cases ht : o.time with
+    | none => exact Nat.zero_le _
+    | some t => exact hle t ht
 
 theorem bucket_not_prefix_parent (key : Bytes) :
     ¬ bucketPath cfg cache key <+: FS.parent (bucketPath cfg cache key) := by
@@ -37,7 +57,7 @@ theorem insert_bucket_wp (key : Bytes) (o : WriteOpts) (b0 : Bytes) {fs : FS}
         ((∀ t, o.time = some t → t ≤ timeMax) → tm ≤ timeMax))
       (insert cfg cache key o) fs := by
   have G0 : ∀ fsx, BucketIs fsx (bucketPath cfg cache key) b0 → Growing cfg cache key o b0 fsx :=
-    fun fsx h => ⟨0, 0, by simpa using h⟩
+    fun fsx h => growing_zero cfg cache h
   -- the tail: open for append, write the frame
   have tail : ∀ fsx tm, (∀ t, o.time = some t → tm = t) →
       ((∀ t, o.time = some t → t ≤ timeMax) → tm ≤ timeMax) → BucketIs fsx (bucketPath cfg cache key) b0 →
@@ -75,17 +95,17 @@ theorem insert_bucket_wp (key : Bytes) (o : WriteOpts) (b0 : Bytes) {fs : FS}
       · simp only [bind_sys]
         refine wpD_call (G0 _ (Or.inl hf1)) ?_ ?_
         · intro t
-          refine ⟨tm, t, Or.inl ?_⟩
+          refine ⟨tm, t, Or.inl ?_, htm, hbound⟩
           simp [execTorn, exec, hf1]
         intro fs2 r2 hs2
         cases hs2 with
         | fail e short =>
           simp only [bind_done]
-          refine ⟨⟨tm, short, Or.inl ?_⟩, fun s h => by cases h⟩
+          refine ⟨⟨tm, short, Or.inl ?_, htm, hbound⟩, fun s h => by cases h⟩
           simp [execFail, exec, hf1]
         | ok =>
           simp only [exec, hf1, bind_done]
-          refine ⟨⟨tm, ((codec cfg).frame (mkRec key o tm)).length, Or.inl ?_⟩, ?_⟩
+          refine ⟨⟨tm, ((codec cfg).frame (mkRec key o tm)).length, Or.inl ?_, htm, hbound⟩, ?_⟩
           · simp
           · intro s _; exact ⟨tm, htm, by simp, hbound⟩
   unfold insert getTime
